@@ -779,6 +779,11 @@ func ForC01(thorough bool) []Family {
 			LongRuns("nest16", []int{8, 9, 17}, false),
 			LongRuns("nestrep", []int{8, 9, 17}, false),
 			NestedLists("nestrep", []int{0, 1, 2, 3}),
+			StructureExhaustive("rep3", 6, 2, true, 80),
+			NestedLists("rep3", []int{0, 1, 2, 3}),
+			LongRuns("rep3", []int{8, 9, 17}, false),
+			StructureExhaustive("ochain", 4, 2, true, 80),
+			LongRuns("ochain", []int{8, 9, 17}, false),
 		}
 	}
 	long := []int{7, 8, 9, 63, 64, 65, 503, 504, 505, 511, 512, 513, 1000, 1024, 4097, 8191, 8192, 8193, 65537}
@@ -830,6 +835,11 @@ func ForC01(thorough bool) []Family {
 		LongRuns("nest16", []int{8, 9, 17, 504, 505, 1001}, false),
 		LongRuns("nestrep", []int{8, 9, 17, 504, 505, 1001}, false),
 		NestedLists("nestrep", []int{0, 1, 2, 3, 4, 9}),
+		StructureExhaustive("rep3", 8, 2, true, 300),
+		NestedLists("rep3", []int{0, 1, 2, 3, 4, 9}),
+		LongRuns("rep3", []int{8, 9, 17, 505}, false),
+		StructureExhaustive("ochain", 6, 2, true, 300),
+		LongRuns("ochain", []int{8, 9, 17, 505}, false),
 	}
 }
 
@@ -839,7 +849,7 @@ var _ = strings.Repeat
 // ForC02Extra adds footer-stress shapes (registered only for C02).
 func ForC02Extra(thorough bool) []Family {
 	var out []Family
-	for _, name := range []string{"nest3", "samename", "reqdeep"} {
+	for _, name := range []string{"nest3", "samename", "reqdeep", "ochainw"} {
 		if !sut.Has(name) {
 			continue
 		}
@@ -880,6 +890,10 @@ func ForC03(thorough bool) []Family {
 			StructureExhaustive("nestrep", 3, 2, true, 100),
 			NestedLists("nestrep", []int{0, 1, 2, 3}),
 			LongRuns("nestrep", []int{8, 9, 505}, false),
+			StructureExhaustive("rep3", 6, 2, true, 150),
+			NestedLists("rep3", []int{0, 1, 2, 3}),
+			StructureExhaustive("ochain", 4, 2, true, 150),
+			StructureExhaustive("ochainw", 4, 2, true, 0),
 		}
 	}
 	return []Family{
@@ -906,6 +920,10 @@ func ForC03(thorough bool) []Family {
 		StructureExhaustive("nestrep", 4, 2, true, 300),
 		NestedLists("nestrep", []int{0, 1, 2, 3, 4, 9}),
 		LongRuns("nestrep", []int{8, 9, 504, 505, 1001}, false),
+		StructureExhaustive("rep3", 8, 2, true, 400),
+		NestedLists("rep3", []int{0, 1, 2, 3, 4, 9}),
+		StructureExhaustive("ochain", 6, 2, true, 400),
+		StructureExhaustive("ochainw", 6, 2, true, 400),
 	}
 }
 
